@@ -26,12 +26,14 @@ EXPECTED_PROBES = ['tunnel_up', 'tunnel_refused_status', 'other_2xx_status',
                    'one_byte_reply', 'credentials',
                    'threaded_send_during_tunnel',
                    'earlier_connection_through_the_same_proxy']
-ASSUMPTIONS = ['the Proxy-Authorization header line itself is not judged '
-               '(the property speaks about the CONNECT target and ordering)']
+ASSUMPTIONS = ['of the Proxy-Authorization header only the form is judged (one '
+               'line, strict base64 of the credentials as written or '
+               'percent-decoded); the doubled colon after its name, pinned by '
+               'tests/test_proxy.py, is tolerated']
 
 REPLIES = ['ok', 'ok', 'ok', 'ok', 'status', 'status', 'other_2xx', 'garbage',
            'unterminated_eof', 'stalled', 'oversize', 'empty', 'http10_ok',
-           'info_then_200']
+           'info_then_200', 'status_token']
 
 
 def plan(tier):
@@ -151,7 +153,10 @@ def make_case(family, i, rng, tier):
     pscheme = rng.choice(['http', 'http', 'https'])
     phost = rng.choice(['proxy.test', 'PROXY.corp.test', '192.168.0.1'])
     pport = rng.choice([None, 3128, 8080, 80, 443])
-    cred = rng.choice([None, None, 'user', 'user:secret', 'u%40x:p'])
+    cred = rng.choice([None, None, 'user', 'user:secret', 'u%40x:p',
+                       # (long enough for a line-wrapping base64 encoder)
+                       'svc-account:' + '0123456789abcdef' * 4,
+                       'u' * 57, 'u' * 58, 'tok' * 40 + ':' + 'p' * 77])
     purl = '%s://%s%s%s' % (pscheme, cred + '@' if cred else '', phost,
                             ':%d' % pport if pport else '')
     other = 'http://wrong-proxy.test:1'
@@ -225,6 +230,12 @@ def _proxy_reply(case):
     if kind == 'status':
         return b'HTTP/1.1 %d Nope\r\n' % case['status'] + extra + \
             b'Content-Length: 0\r\n\r\n', False
+    if kind == 'status_token':
+        # status-code is exactly three digits: a token that merely starts
+        # with 200 (or is cut short) is no 200
+        tok = rng.choice([b'2000', b'200OK', b'200-refused', b'200.7', b'20',
+                          b'2', b'200x', b'20000', b'200;q=1'])
+        return b'HTTP/1.1 ' + tok + b' OK\r\n' + extra + b'\r\n', False
     if kind == 'info_then_200':
         # the first answer is a 1xx block: not a 200, whatever follows it
         return b'HTTP/1.1 %d %s\r\n\r\n' % rng.choice(
@@ -247,6 +258,41 @@ def _proxy_reply(case):
     if kind == 'empty':
         return b'', False
     raise ValueError(kind)
+
+
+def _check_connect_block(res, first, must):
+    """The CONNECT request is one well-formed header block; credentials of
+    the proxy URL travel as one Proxy-Authorization line."""
+    import base64
+    from six.moves.urllib.parse import urlparse, unquote
+    if not first.endswith(b'\r\n\r\n'):
+        return
+    lines = first[:-4].split(b'\r\n')
+    for ln in lines[1:]:
+        if b'\n' in ln or b'\r' in ln or b':' not in ln or ln[:1] in b' \t':
+            res.bad('C19/proxy/connect_block_malformed',
+                    'line %r inside the CONNECT request' % ln[:90])
+            return
+    pu = urlparse(must)
+    # (lomond writes 'Proxy-Authorization:: Basic ...' - a doubled colon that
+    # tests/test_proxy.py pins; no property speaks about it, so it is tolerated)
+    auth = [ln.split(b':', 1)[1].lstrip(b': ').rstrip() for ln in lines[1:]
+            if ln.split(b':', 1)[0].strip().lower() == b'proxy-authorization']
+    if pu.username is None:
+        if auth:
+            res.bad('C19/proxy/credentials_invented', repr(auth))
+        return
+    if len(auth) != 1 or not auth[0].startswith(b'Basic '):
+        res.bad('C19/proxy/credentials_line', repr(auth))
+        return
+    try:
+        raw = base64.b64decode(auth[0][6:], validate=True)
+    except Exception:
+        res.bad('C19/proxy/credentials_not_base64', repr(auth[0][:90]))
+        return
+    cred = must.split('://', 1)[1].rsplit('@', 1)[0]
+    if raw.decode('utf-8', 'replace') not in (cred, unquote(cred)):
+        res.bad('C19/proxy/credentials_wrong', '%r for %r' % (raw, cred))
 
 
 def build(case):
@@ -283,7 +329,7 @@ def build(case):
         kind = case['reply']
         then_server = good
         if kind in ('unterminated_eof', 'empty', 'garbage', 'status',
-                    'other_2xx', 'oversize', 'info_then_200'):
+                    'other_2xx', 'oversize', 'info_then_200', 'status_token'):
             psteps.append(S.eof(after=1000 if kind != 'status' else 2000000))
         elif kind == 'stalled':
             psteps.append({'op': 'silence'})
@@ -386,6 +432,7 @@ def execute(case):
             if line.lower() != want.lower():
                 res.bad('C19/proxy/connect_line',
                         'first line %r, expected %r' % (line, want))
+            _check_connect_block(res, first, must)
             if first != bytes(st.out[0][2]):
                 res.bad('C19/proxy/connect_not_one_write',
                         'CONNECT request is not exactly the first write')
